@@ -89,9 +89,31 @@ def _run_one(args):
     return case, out
 
 
+def _n_maps():
+    try:
+        with open("/proc/self/maps") as f:
+            return sum(1 for _ in f)
+    except OSError:
+        return 0
+
+
+def _relieve_jax():
+    """A long-lived worker that compiles thousands of small XLA programs runs into vm.max_map_count (every
+    compiled executable is mmapped; LLVM then fails with 'Cannot allocate memory' and the process dies).  Drop the
+    compilation caches when the number of mappings gets large."""
+    if "jax" in sys.modules and _n_maps() > 20000:
+        import gc
+        sys.modules["jax"].clear_caches()
+        gc.collect()
+
+
 def _run_chunk(args):
     pid, chunk = args
-    return [_run_one((pid, c)) for c in chunk]
+    out = []
+    for c in chunk:
+        out.append(_run_one((pid, c)))
+        _relieve_jax()
+    return out
 
 
 def make_pool(jobs):
